@@ -27,6 +27,7 @@ struct Entry { int ctx; int kind; unsigned long in, out; std::string text; };
 struct Interp {
     Ctx &ctx;
     std::vector<std::vector<Line>> files{4};
+    bool padded = false;
     std::vector<std::string> reg;   // registered context names in order (handler k = position)
     bool own_null = false;
     std::map<std::string, std::string> vars;
@@ -156,6 +157,11 @@ struct Interp {
         LA(cf_init());
         for (auto &op : c) {
             if (op.name == "regnull" && !own_null) { own_null = true; LA(cf_register("null", 31)); ctx.label("own-null-handler"); }
+            if (op.name == "pad" && !padded) {   // filler contexts no line ever names: they push the ids of the contexts registered after them past 127 / 160 / 200
+                padded = true;
+                for (long i = 0; i < op.i(0) && i < 224; i++) { std::string n = "vtfill" + std::to_string(i); LA(cf_register(n.c_str(), 40)); }
+                ctx.label(op.i(0) >= 127 ? "context-ids>=128" : "context-ids-padded<128");
+            }
             if (op.name == "reg" && reg.size() < 24) {
                 std::string n = op.s(0);
                 bool dup = n.empty() || !strcasecmp(n.c_str(), "null");
@@ -241,6 +247,7 @@ struct Interp {
 rc::Gen<Case> gen_case() {
     return rc::gen::exec([]() {
         Case c;
+        if (*range(0, 3) == 0) c.push_back(mk("pad", {*rc::gen::elementOf(std::vector<long>{60, 126, 127, 128, 150, 159, 160, 200, 224})}));
         if (*range(0, 1)) c.push_back(mk("regnull"));
         long nreg = *range(0, 8);
         for (long i = 0; i < nreg; i++) c.push_back(mk("reg", {}, {*rc::gen::elementOf(kCtx)}));
